@@ -35,6 +35,9 @@ struct ev {
 static struct ev E[NE], D[NP];      /* D[p]: poster p's "done" event */
 static long seq;
 static int owner_fd[2], owner_fd_reg;
+static int owner_fd2[2] = { -1, -1 }, ofd_gen;
+static int idle_fd[2];
+static struct iv_fd idle_ofd;      /* a second, never-ready descriptor: the poll batch has room for two entries */
 static struct iv_fd *ofd;
 static struct iv_timer otimer;
 static int posters_alive, nposters;
@@ -109,9 +112,14 @@ static void maybe_finish(void)
 		}
 	if (owner_fd_reg)
 		drop_owner_fd();
+	if (iv_fd_registered(&idle_ofd))
+		iv_fd_unregister(&idle_ofd);
 	if (iv_timer_registered(&otimer))
 		iv_timer_unregister(&otimer);
 }
+
+static void ofd_in(void *ck);
+static void idle_in(void *dummy);
 
 static void ev_handler(void *_e)
 {
@@ -128,7 +136,7 @@ static void ev_handler(void *_e)
 	if (e->handled > e->posts_started)
 		mc_fail("event-over", "handler of %s invoked %ld times for %ld posts", e->name, e->handled, e->posts_started);
 	if (handler_budget > 0) {
-		c = mc_choose(6, MC_ACTION, "handler-act");
+		c = mc_choose(7, MC_ACTION, "handler-act");
 		if (c)
 			handler_budget--;
 		switch (c) {
@@ -148,6 +156,22 @@ static void ev_handler(void *_e)
 			if (owner_fd_reg) {
 				mc_obs("O:unreg-fd");
 				drop_owner_fd();
+			}
+			break;
+		case 6:
+			/* recycle the owner's descriptor object: unregister it and register the very same struct for a fresh
+			 * descriptor that nobody ever writes to; readiness of the old one may sit in the current batch */
+			if (owner_fd_reg && owner_fd2[0] < 0) {
+				mc_obs("O:recycle-fd");
+				iv_fd_unregister(ofd);
+				if (socketpair(AF_UNIX, SOCK_STREAM, 0, owner_fd2) < 0)
+					mc_broken("socketpair");
+				memset(ofd, 0xbe, sizeof(*ofd));
+				IV_FD_INIT(ofd);
+				ofd->fd = owner_fd2[0];
+				ofd->cookie = (void *)(long)++ofd_gen;
+				ofd->handler_in = ofd_in;
+				iv_fd_register(ofd);
 			}
 			break;
 		case 4:
@@ -198,13 +222,24 @@ static void poster(void *_p)
 	do_post(&D[p], who);
 }
 
-static void ofd_in(void *dummy)
+static void ofd_in(void *ck)
 {
 	char b[16];
-	(void)dummy;
+	if ((long)ck != ofd_gen)
+		mc_fail("stale-callback", "descriptor handler invoked with the cookie of registration %ld, current is %d", (long)ck, ofd_gen);
+	if (!owner_fd_reg)
+		mc_fail("stale-callback", "descriptor handler invoked although the descriptor is unregistered");
 	mc_obs("O:fd-in");
+	if (ofd_gen > 0)
+		mc_fail("fd-spurious", "handler of the recycled descriptor object invoked although nothing was ever written to its new descriptor");
 	while (read(owner_fd[0], b, sizeof(b)) > 0)
 		;
+}
+
+static void idle_in(void *dummy)
+{
+	(void)dummy;
+	mc_fail("fd-spurious", "handler of a descriptor that never became readable was invoked");
 }
 
 static void otimer_cb(void *dummy)
@@ -316,6 +351,13 @@ static void exec_one(void)
 		ofd->handler_in = ofd_in;
 		iv_fd_register(ofd);
 		owner_fd_reg = 1;
+		if (socketpair(AF_UNIX, SOCK_STREAM, 0, idle_fd) < 0)
+			mc_broken("socketpair");
+		IV_FD_INIT(&idle_ofd);
+		idle_ofd.fd = idle_fd[0];
+		idle_ofd.cookie = NULL;
+		idle_ofd.handler_in = idle_in;
+		iv_fd_register(&idle_ofd);
 	}
 	IV_TIMER_INIT(&otimer);
 	if (mc_choose(2, MC_CONFIG, "prepost")) {
@@ -351,6 +393,12 @@ static void exec_one(void)
 	if (with_fd) {
 		close(owner_fd[0]);
 		close(owner_fd[1]);
+		close(idle_fd[0]);
+		close(idle_fd[1]);
+		if (owner_fd2[0] >= 0) {
+			close(owner_fd2[0]);
+			close(owner_fd2[1]);
+		}
 	}
 	if (env_lib_allocs_live != allocs0)
 		mc_fail("leak-mem", "%ld library allocations live after iv_deinit", env_lib_allocs_live - allocs0);
